@@ -139,7 +139,144 @@ pub fn gen_string(rng: &mut Rng, n: usize) -> Vec<u8> {
     }
 }
 
+/// Values that mean something to software that handles addresses, times and counters - the
+/// special cases a parser (or a "normalisation" somebody adds to it) is likely to treat differently.
+/// Uniform random bytes hit them with probability 2^-32 .. 2^-96.
+fn semantic_value(rng: &mut Rng, dt: DT, n: usize) -> Option<Vec<u8>> {
+    let v4 = |rng: &mut Rng| -> [u8; 4] {
+        match rng.below(8) {
+            0 => [0, 0, 0, 0],
+            1 => [127, 0, 0, 1],
+            2 => [255, 255, 255, 255],
+            3 => [224, 0, 0, 1],
+            4 => [10, 0, 0, 1],
+            5 => [192, 0, 2, rng.u8()],
+            6 => [169, 254, rng.u8(), rng.u8()],
+            _ => [rng.u8(), rng.u8(), rng.u8(), rng.u8()],
+        }
+    };
+    match (dt, n) {
+        (DT::Ip6, 16) => {
+            let mut a = [0u8; 16];
+            match rng.below(12) {
+                0 => {}                // ::
+                1 => a[15] = 1,        // ::1
+                2 | 3 => {
+                    // IPv4-mapped ::ffff:a.b.c.d
+                    a[10] = 0xff;
+                    a[11] = 0xff;
+                    a[12..].copy_from_slice(&v4(rng));
+                }
+                4 => a[12..].copy_from_slice(&v4(rng)), // IPv4-compatible ::a.b.c.d
+                5 => {
+                    // NAT64 64:ff9b::a.b.c.d
+                    a[1] = 0x64;
+                    a[2] = 0xff;
+                    a[3] = 0x9b;
+                    a[12..].copy_from_slice(&v4(rng));
+                }
+                6 => {
+                    a[0] = 0xfe;
+                    a[1] = 0x80;
+                    a[15] = rng.u8();
+                }
+                7 => {
+                    a[0] = 0xff;
+                    a[1] = 0x02;
+                    a[15] = 1;
+                }
+                8 => {
+                    // 6to4 2002:a.b.c.d::
+                    a[0] = 0x20;
+                    a[1] = 0x02;
+                    let x = v4(rng);
+                    a[2..6].copy_from_slice(&x);
+                }
+                9 => {
+                    a[0] = 0x20;
+                    a[1] = 0x01;
+                    a[2] = 0x0d;
+                    a[3] = 0xb8;
+                    a[15] = rng.u8();
+                }
+                10 => {
+                    // ::ffff:0:a.b.c.d (SIIT) - one group off the mapped prefix
+                    a[8] = 0xff;
+                    a[9] = 0xff;
+                    a[12..].copy_from_slice(&v4(rng));
+                }
+                _ => a = [0xff; 16],
+            }
+            Some(a.to_vec())
+        }
+        (DT::Ip4, 4) => Some(v4(rng).to_vec()),
+        (DT::Mac, 6) => Some(match rng.below(6) {
+            0 => vec![0; 6],
+            1 => vec![0xff; 6],
+            2 => vec![0x01, 0x00, 0x5e, 0, 0, 1],
+            3 => vec![0x33, 0x33, 0, 0, 0, 1],
+            4 => vec![0x02, 0, 0, 0, 0, rng.u8()],
+            _ => vec![0x00, 0x1b, 0x21, rng.u8(), rng.u8(), rng.u8()],
+        }),
+        (DT::F64, 8) => {
+            // values exactly representable in narrower formats, and neighbours that are not
+            let x: f64 = match rng.below(14) {
+                0 => 0.0,
+                1 => 1.0,
+                2 => -1.0,
+                3 => 0.5,
+                4 => 1.0 / 1024.0,
+                5 => 16777216.0,
+                6 => 16777217.0,
+                7 => f32::MAX as f64,
+                8 => f32::MIN_POSITIVE as f64,
+                9 => 0.1,
+                10 => (0.1f32) as f64,
+                11 => rng.below(100000) as f64,
+                12 => 4294967296.0,
+                _ => -(rng.below(1000) as f64) / 8.0,
+            };
+            Some(x.to_be_bytes().to_vec())
+        }
+        (DT::DurS, _) | (DT::DurMs, _) | (DT::DurUs, _) | (DT::DurNs, _) if n > 0 && n <= 8 => {
+            let x: u64 = match rng.below(8) {
+                0 => 0,
+                1 => 1,
+                2 => 999,
+                3 => 1000,
+                4 => 1_000_000,
+                5 => 86_400,
+                6 => 1_700_000_000,
+                _ => 1_700_000_000_000,
+            };
+            let b = x.to_be_bytes();
+            if n < 8 && x >> (8 * n) != 0 {
+                return None;
+            }
+            Some(b[8 - n..].to_vec())
+        }
+        (DT::Unsigned, _) | (DT::Signed, _) if n > 0 && n <= 16 => {
+            // small numbers that are protocol numbers, well-known ports, masks, TCP flags
+            let x: u64 = *rng.pick(&[1u64, 2, 6, 17, 22, 47, 50, 53, 58, 80, 132, 255, 256, 443, 1023, 1024, 8080, 32, 24, 128, 0x12, 0x3f]);
+            if n < 8 && x >> (8 * n) != 0 {
+                return None;
+            }
+            let mut v = vec![0u8; n];
+            let b = x.to_be_bytes();
+            let k = n.min(8);
+            v[n - k..].copy_from_slice(&b[8 - k..]);
+            Some(v)
+        }
+        _ => None,
+    }
+}
+
 pub fn gen_value(rng: &mut Rng, dt: DT, n: usize, cfg: &Cfg) -> Vec<u8> {
+    if rng.chance(1, 4) {
+        if let Some(v) = semantic_value(rng, dt, n) {
+            return v;
+        }
+    }
     match dt {
         DT::Str => gen_string(rng, n),
         DT::Proto => {
